@@ -77,10 +77,8 @@ Fail(m, p, v) ==
        IN  GoReady(m2)
 
 \* ---- memory pools
-Slots(ctl) == IF ctl = <<>> THEN 0
-              ELSE LET f[i \in 0..Len(ctl)] == IF i = 0 THEN 0
-                                             ELSE f[i - 1] + (IF ctl[i].k = "for" THEN 4 ELSE 1)
-                   IN f[Len(ctl)]
+Slots(ctl) == 4 * Cardinality({i \in 1..Len(ctl) : ctl[i].k = "for"})
+              + Cardinality({i \in 1..Len(ctl) : ctl[i].k # "for"})
 
 \* ---- variables
 St(m) == [vars |-> m.vars, dims |-> m.dims, deft |-> m.deft, fns |-> m.fns, col |-> m.col]
